@@ -94,7 +94,8 @@ where
     | [] => true
     | t :: ts => layoutOk t && layoutOkList ts
 
-/-- Every `Compact<_>` node has one of the five widths the crate implements. -/
+/-- Every `Compact<_>` node has one of the five widths the crate implements and every enum index
+    fits a byte (the derive's compile-time check). -/
 def widthsOk : Ty → Bool
   | .compact w => widthOk w
   | .option t => widthsOk t
@@ -105,11 +106,34 @@ def widthsOk : Ty → Bool
   | .seq _ _ t => widthsOk t
   | .box _ t => widthsOk t
   | .range t => widthsOk t
-  | .enum _ ts => widthsOkList ts
+  | .enum idxs ts => idxs.all (· < 256) && widthsOkList ts
   | _ => true
 where
   widthsOkList : List Ty → Bool
     | [] => true
     | t :: ts => widthsOk t && widthsOkList ts
+
+/-- Types whose accepted byte strings are exactly the encodings of their values. The documented
+    non-canonical acceptances are excluded: maps and sets (unsorted / duplicate entries are
+    accepted and normalised), heaps (any order), bit sequences (non-zero padding bits). -/
+def wireCanon : Ty → Bool
+  | .option t => wireCanon t
+  | .result t e => wireCanon t && wireCanon e
+  | .tuple ts => wireCanonList ts
+  | .array _ t => wireCanon t
+  | .garray _ t => wireCanon t
+  | .seq k _ t =>
+    wireCanon t && (match k with
+      | .vec | .deque | .list => true
+      | _ => false)
+  | .box _ t => wireCanon t
+  | .range t => wireCanon t
+  | .bitseq _ _ => false
+  | .enum _ ts => wireCanonList ts
+  | _ => true
+where
+  wireCanonList : List Ty → Bool
+    | [] => true
+    | t :: ts => wireCanon t && wireCanonList ts
 
 end Scale
